@@ -200,6 +200,27 @@ pub fn run_case(a: &Arg, out: &mut Vec<String>, dir: &str) {
                     }
                 }
             }
+            // 14 = like 12, but the request stays outstanding: a later 12/7/14 answers it AGAIN (a surplus answer,
+            // which `respond` reports as Underflow)
+            14 => {
+                if outstanding.is_empty() {
+                    out.push(format!("{}resp none", pre));
+                } else {
+                    let idx = (o[1].n() % outstanding.len() as u64) as usize;
+                    let sr = outstanding[idx].process(|r| {
+                        let mut resp = micro_http::Response::new(micro_http::Version::Http11, micro_http::StatusCode::OK);
+                        let u = uri_from_debug(&format!("{:?}", r.uri()));
+                        let mut body = b"echo:".to_vec();
+                        body.extend_from_slice(&u);
+                        resp.set_body(micro_http::Body::new(body));
+                        resp
+                    });
+                    match server.respond(sr) {
+                        Ok(()) => out.push(format!("{}resp Ok", pre)),
+                        Err(e) => out.push(format!("{}resp Err({})", pre, serr_s(&e))),
+                    }
+                }
+            }
             8 => {
                 server.flush_outgoing_writes();
                 out.push(format!("{}flush", pre));
